@@ -15,6 +15,8 @@ instr       : {'i': 'param', 'name', 'kind': 'bias'|'mat'|'scalar'}
 """
 from __future__ import annotations
 
+import collections
+
 import json
 
 D = 2  # feature width of every activation
@@ -161,7 +163,12 @@ def int_init(kind):
   return init
 
 
+Pair = collections.namedtuple('Pair', ['n', 's'])  # a NamedTuple-valued variable (like an RNN carry or an optimizer-style state)
+
+
 def var_init(kind):
+  if kind == 'pair':
+    return Pair(n=jnp.zeros((), jnp.float32), s=jnp.zeros((D,), jnp.float32))
   return jnp.zeros((), jnp.float32) if kind == 'counter' else jnp.zeros((D,), jnp.float32)
 
 
@@ -200,9 +207,11 @@ def run_body(mod, sp, x, decl):
         CTL.event('var-write')
         if ins['kind'] == 'counter':
           v.value = v.value + 1.0
+        elif ins['kind'] == 'pair':
+          v.value = Pair(n=v.value.n + 1.0, s=v.value.s + x.sum(axis=0))
         else:
           v.value = v.value + x.sum(axis=0)
-      x = x + v.value
+      x = x + (v.value.n + v.value.s if ins['kind'] == 'pair' else v.value)
     elif k == 'write':
       # unguarded write: legal only when the collection is mutable
       CTL.event('write')
